@@ -352,6 +352,9 @@ func (istioEngine) Gen(r *rand.Rand, idx int, tier string) any {
 	case 2: // neither weight nor matches
 	default:
 		w := pick(r, 0, 1, 5, 10, 20, 33, 50, 80, 99, 100)
+		if chance(r, 50) {
+			w = r.Intn(101) // every percentage: scripts that go through floating point may be off by one for a few of them
+		}
 		in.Weight = &w
 	}
 	if chance(r, 88) {
